@@ -1,11 +1,11 @@
 #!/bin/bash
-# usage: tools/verify_seed.sh <Cnn> <A|B>   (reads /tmp/seed/out-<Cnn>/<A|B>)
+# usage: [SEEDROOT=/tmp/seed2] tools/verify_seed.sh <Cnn> <A|B> [store-as letter]   (reads $SEEDROOT/out-<Cnn>/<A|B>)
 # Confirms in a fresh scratch worktree: demo passes on clean tree, fails with the
 # patch, pinned baseline passes with the patch.  On success stores the seed
 # under /verif/seeded/<Cnn>-<A|B>/.
 set -u
-P=$1; V=$2; SRC=/tmp/seed/out-$P/$V
-ID=$P-$V; WT=/tmp/seedv/wt-$ID
+P=$1; V=$2; SEEDROOT=${SEEDROOT:-/tmp/seed}; AS=${3:-$V}; SRC=$SEEDROOT/out-$P/$V
+ID=$P-$AS; WT=/tmp/seedv/wt-$ID
 [ -f $SRC/patch.diff ] || { echo "$ID: no patch"; exit 2; }
 mkdir -p /tmp/seedv; git -C /repo worktree remove --force $WT 2>/dev/null; rm -rf $WT
 git -C /repo worktree add -q --detach $WT HEAD || exit 2
@@ -16,14 +16,14 @@ git -C $WT checkout -q -- . ; git -C $WT clean -fdq
 if ! git -C $WT apply $SRC/patch.diff 2>>$LOG; then echo "$ID: patch does not apply"; git -C /repo worktree remove --force $WT; exit 2; fi
 echo "== patched demo" >> $LOG; RC_PATCHED=$(run_demo)
 git -C $WT status --short | grep -v '^ M' >> $LOG
-echo "== baseline" >> $LOG; /tmp/seedtools/run_baseline.sh $WT >> $LOG 2>&1; RC_BASE=$?
-if [ $RC_BASE -ne 0 ]; then echo "== baseline retry" >> $LOG; /tmp/seedtools/run_baseline.sh $WT >> $LOG 2>&1; RC_BASE=$?; fi
+echo "== baseline" >> $LOG; /verif/tools/run_baseline.sh $WT >> $LOG 2>&1; RC_BASE=$?
+if [ $RC_BASE -ne 0 ]; then echo "== baseline retry" >> $LOG; /verif/tools/run_baseline.sh $WT >> $LOG 2>&1; RC_BASE=$?; fi
 git -C /repo worktree remove --force $WT; rm -rf $WT
 echo "$ID: demo clean rc=$RC_CLEAN patched rc=$RC_PATCHED baseline rc=$RC_BASE"
 if [ "$RC_CLEAN" = 0 ] && [ "$RC_PATCHED" != 0 ] && [ $RC_BASE = 0 ]; then
   D=/verif/seeded/$ID; rm -rf $D; mkdir -p $D
   cp $SRC/patch.diff $D/patch.diff; cp -r $SRC/demo $D/demo; cp $SRC/notes.md $D/notes.md 2>/dev/null
-  python3 - "$P" "$V" "$RC_CLEAN" "$RC_PATCHED" "$RC_BASE" > $D/meta.json <<'PY'
+  python3 - "$P" "$AS" "$RC_CLEAN" "$RC_PATCHED" "$RC_BASE" > $D/meta.json <<'PY'
 import json,sys
 p,v,c,pa,b=sys.argv[1:]
 print(json.dumps({"id":f"{p}-{v}","property":p,"source":"independent sub-agent given only the property text and a scratch worktree","confirmed":{"demo_on_clean_tree_exit":int(c),"demo_with_patch_exit":int(pa),"pinned_baseline_with_patch_exit":int(b),"how":"tools/verify_seed.sh in a fresh scratch git worktree of /repo (removed afterwards)"},"needs_to_manifest":"see notes.md","caught_by":"TBD"},indent=1))
